@@ -190,8 +190,8 @@ class UModel:
             d = bm_mul(d, {self.units[b].t: 1}, e)
         return d
 
-    def result(self, factor: Fraction, bmap: dict):
-        """Classify a product expansion.
+    def result(self, factor: Fraction, bmap: dict, declared_types=None, declared_units=None):
+        """Classify a product expansion (optionally w.r.t. a subset of the declarations).
 
         -> ("number", factor) | ("type", ti) | ("units", [uids]) | ("undefined",) | ("ambiguous",)
         """
@@ -199,13 +199,15 @@ class UModel:
             return ("number", factor)
         if self.all_ref_bases(bmap):
             t = self.type_with_dims(self.dims_of_bmap(bmap))
+            if t is not None and declared_types is not None and t.idx not in declared_types:
+                t = None
             if t is None:
                 return ("undefined",)
             if t.has_ref:
                 return ("type", t.idx)
             # a type built from components without reference unit has no
             # reference unit itself: only its declared units can carry a result
-        cands = [u.uid for u in self.units if u.bmap == bmap]
+        cands = [u.uid for u in self.units if u.bmap == bmap and (declared_units is None or u.uid in declared_units)]
         if not cands:
             return ("undefined",)
         good = [c for c in cands if self.units[c].factor in (1, factor)]
@@ -747,3 +749,185 @@ def run_ops_case(case, ctx, judge):
         fn = (lambda l=left, r=right: l * r) if op == "*" else (lambda l=left, r=right: l / r)
         judge(ctx, f"u{op}/{shape}", f"{left!r} {op} {right!r} [{mu.how},{mv.how}]", fn, exp,
               scale_of, quantum_of, cls_of, tuple_ok=(shape == "uu"))
+
+
+# ---------------------------------------------------------------------------
+# C17: the predefined catalogue as a preloaded model, dependencies, schedules
+
+def catalogue_model() -> UModel:
+    """UModel preloaded with the predefined catalogue (numbering of refdata.CAT_TYPES / catalogue_units)."""
+    m = UModel()
+    tidx = {t: i for i, t in enumerate(refdata.CAT_TYPES)}
+    for t in refdata.CAT_TYPES:
+        idx = len(m.types)
+        if t in refdata.CAT_DEFN:
+            defn = [(tidx[c], e) for c, e in refdata.CAT_DEFN[t]]
+            dims = {tidx[b]: e for b, e in refdata.DIMS[t].items()}
+            mt = MT(idx, "derived", dims, True, refdata.QUANTUM.get(t), defn)
+        else:
+            mt = MT(idx, "base", {idx: 1}, t != "Temperature", refdata.QUANTUM.get(t), None)
+        m.types.append(mt)
+    units = refdata.catalogue_units()
+    sym2uid = {s: i for i, (s, _) in enumerate(units)}
+    for s, t in units:
+        ti = tidx[t]
+        mt = m.types[ti]
+        if t == "Temperature":
+            u = m._new_unit(ti, Fraction(1), None, True, "pre")
+        else:
+            bmap = {sym2uid[refdata.REF_SYMBOL[b]]: e for b, e in refdata.DIMS[t].items()}
+            isref = s == refdata.REF_SYMBOL[t]
+            u = m._new_unit(ti, refdata.UNITS[s][1], bmap, isref and t not in refdata.CAT_DEFN, "ref" if isref else "pre")
+            if isref:
+                mt.ref_uid = u.uid
+        u.plain_symbol = s.isalnum()
+    return m
+
+
+def decl_deps(decls, m_before_types, m_before_units):
+    """For each declaration k: set of declarations it depends on (by position)."""
+    tnum, unum = {}, {}
+    nt, nu = m_before_types, m_before_units
+    for k, d in enumerate(decls):
+        if d["d"] == "type":
+            tnum[nt] = k
+            nt += 1
+            if d["_has_ref"]:
+                unum[nu] = k
+                nu += 1
+        else:
+            unum[nu] = k
+            nu += 1
+    deps = []
+    for k, d in enumerate(decls):
+        s = set()
+        if d["d"] == "type":
+            for ti, _ in d.get("def", []):
+                if ti in tnum:
+                    s.add(tnum[ti])
+        else:
+            if d["t"] in tnum:
+                s.add(tnum[d["t"]])
+            refs = []
+            if d["how"] == "scaled":
+                refs = [d["of"]]
+            elif d["how"] == "derive":
+                refs = list(d["args"])
+            elif d["how"] == "term":
+                refs = [el for el, _ in d["items"] if isinstance(el, int)]
+            for r in refs:
+                if r in unum:
+                    s.add(unum[r])
+        deps.append(s)
+    return deps, tnum, unum
+
+
+@st.composite
+def gen_program(draw, catalogue=None):
+    """Program = declarations (optionally on top of the predefined catalogue) + operations + 2 schedules."""
+    if catalogue is None:
+        catalogue = draw(st.booleans())
+    g = UGen(draw, allow_noref=not catalogue and draw(st.booleans()), allow_quantum=True)
+    if catalogue:
+        g.m = catalogue_model()
+    nt0, nu0 = len(g.m.types), len(g.m.units)
+    if catalogue:
+        # favour derived types over catalogue types (Jerk = Acceleration / Duration) and units of catalogue types
+        for _ in range(draw(st.integers(2, 8))):
+            sel = draw(st.integers(0, 5))
+            if sel == 0:
+                g.base_type(ref=True)
+            elif sel <= 2:
+                g.derived_type()
+            else:
+                g.unit()
+    else:
+        g.grow(draw(st.integers(1, 3)), draw(st.integers(3, 10)))
+    m = g.m
+    decls = g.decls
+    k2 = 0
+    for d in decls:
+        if d["d"] == "type":
+            d["_has_ref"] = m.types[nt0 + k2].has_ref
+            k2 += 1
+    deps, tnum, unum = decl_deps(decls, nt0, nu0)
+    # operations: biased to results owned by generated types
+    new_types = [t for t in m.types[nt0:]]
+    have = [t for t in m.types if t.units]
+    good = []
+    for t in new_types:
+        if t.kind == "derived" and t.has_ref:
+            for t1 in have:
+                for t2 in have:
+                    for op, sg in (("*", 1), ("/", -1)):
+                        if bm_mul(t1.dims, t2.dims, sg) == t.dims:
+                            good.append((t1.idx, op, t2.idx))
+    kinds = ("int", "dec", "frac")
+    ops = []
+    for _ in range(draw(st.integers(2, 6))):
+        sel = draw(st.integers(0, 9))
+        if sel <= 5 and good:
+            t1, op, t2 = draw(st.sampled_from(good))
+            u, v = draw(st.sampled_from(m.types[t1].units)), draw(st.sampled_from(m.types[t2].units))
+        elif sel <= 7 and new_types and any(t.units for t in new_types):
+            u = draw(st.sampled_from(draw(st.sampled_from([t for t in new_types if t.units])).units))
+            v = draw(st.sampled_from(draw(st.sampled_from(have)).units))
+            op = draw(st.sampled_from(["*", "/"]))
+            if draw(st.booleans()):
+                u, v = v, u
+        else:
+            u = draw(st.sampled_from(draw(st.sampled_from(have)).units))
+            v = draw(st.sampled_from(draw(st.sampled_from(have)).units))
+            op = draw(st.sampled_from(["*", "/", "**"]))
+        o = {"op": op, "u": u, "a": draw(gen.encode(gen.fractions(allow_zero=False), kinds))}
+        if op == "**":
+            o.update(shape=draw(st.sampled_from(["u", "q"])), n=draw(st.sampled_from([2, 3, -1, -2, 1])))
+        else:
+            o.update(shape=draw(st.sampled_from(["uu", "qu", "uq", "qq", "qq"])), v=v,
+                     b=draw(gen.encode(gen.fractions(allow_zero=False), kinds)))
+        ops.append(o)
+    # what each op needs before it can be written down: its operand units
+    def op_needs(o):
+        need = set()
+        for uid in [o["u"]] + ([o["v"]] if "v" in o else []):
+            if uid in unum:
+                need.add(unum[uid])
+        return need
+
+    def closure(s):
+        out = set()
+        todo = list(s)
+        while todo:
+            k = todo.pop()
+            if k not in out:
+                out.add(k)
+                todo.extend(deps[k])
+        return out
+
+    schedules = []
+    for _ in range(2):
+        # random topological order of the declarations
+        remaining = set(range(len(decls)))
+        done = []
+        order = []
+        while remaining:
+            ready = sorted(k for k in remaining if deps[k] <= set(done))
+            k = draw(st.sampled_from(ready))
+            order.append(k)
+            done.append(k)
+            remaining.discard(k)
+        events = [{"e": "decl", "i": k} for k in order]
+        # insert operation evaluations at random positions after their operands exist
+        for j, o in enumerate(ops):
+            need = closure(op_needs(o))
+            for _rep in range(draw(st.integers(1, 2))):
+                lo = 0
+                for pos, ev in enumerate(events):
+                    if ev["e"] == "decl" and ev["i"] in need:
+                        lo = pos + 1
+                pos = draw(st.integers(lo, len(events)))
+                events.insert(pos, {"e": "op", "i": j})
+        events += [{"e": "op", "i": j} for j in range(len(ops))]
+        schedules.append(events)
+    return {"k": "prog", "program": {"catalogue": bool(catalogue), "decls": decls, "ops": ops},
+            "schedules": schedules}
